@@ -1,3 +1,663 @@
 package main
 
-type modelFS struct{}
+// Model file system (DESIGN §1.3): os.Open/OpenFile/ReadFile/Stat/ReadDir/Rename and the methods of
+// *os.File are redirected to this in-memory model, which honours the documented POSIX/io contracts:
+// Read returns (0, io.EOF) at the end, ReadAt returns (n<len, io.EOF) when short, O_TRUNC empties,
+// O_CREATE creates, a descriptor opened without O_WRONLY/O_RDWR refuses Write and Truncate, a closed
+// descriptor refuses everything. File contents are vectors of byte terms (symbolic), names are strings
+// (possibly symbolic: lookups compare with symbolic equality and fork).
+
+import (
+	"fmt"
+	"go/types"
+	"sort"
+
+	"golang.org/x/tools/go/ssa"
+)
+
+type fsNode struct {
+	name    str
+	isDir   bool
+	content []*Term
+	deleted bool
+	seq     int
+}
+
+type fsHandle struct {
+	abstract bool  // contents are the function file[i] = byte(i); size is a symbolic term
+	absSize  *Term // 64-bit
+	absPos   *Term // sequential position of an abstract file
+	readAts  int
+	node     *fsNode
+	pos      int
+	writable bool
+	readable bool
+	closed   bool
+	append_  bool
+	name     str
+}
+
+type modelFS struct {
+	nodes   []*fsNode
+	handles []*fsHandle
+	log     []string
+	seq     int
+}
+
+// model objects that are reached through Go interfaces (fs.FileInfo, fs.DirEntry)
+type fsInfo struct {
+	node *fsNode
+	base str
+}
+
+type nativeFn func(m *Machine, fr *frame, args []value) value
+
+var fakeInfoType = types.NewNamed(types.NewTypeName(0, nil, "modelfs.FileInfo", nil), types.NewStruct(nil, nil), nil)
+var fakeEntryType = types.NewNamed(types.NewTypeName(0, nil, "modelfs.DirEntry", nil), types.NewStruct(nil, nil), nil)
+
+func (m *Machine) getFS() *modelFS {
+	if m.fs == nil {
+		m.fs = &modelFS{}
+	}
+	return m.fs
+}
+
+func cleanPath(s str) str {
+	// strip trailing slashes, a leading "./" and doubled slashes; separators are always concrete bytes
+	bs := s.bytes()
+	isC := func(t *Term, c byte) bool { return t.isConst() && t.c == uint64(c) }
+	for len(bs) > 1 && isC(bs[len(bs)-1], '/') {
+		bs = bs[:len(bs)-1]
+	}
+	for len(bs) > 2 && isC(bs[0], '.') && isC(bs[1], '/') {
+		bs = bs[2:]
+	}
+	out := make([]*Term, 0, len(bs))
+	for i, b := range bs {
+		if isC(b, '/') && i > 0 && isC(bs[i-1], '/') {
+			continue
+		}
+		out = append(out, b)
+	}
+	return mkStr(out)
+}
+
+func (fs *modelFS) lookup(m *Machine, fr *frame, name str) *fsNode {
+	name = cleanPath(name)
+	for _, n := range fs.nodes {
+		if n.deleted {
+			continue
+		}
+		if n.name.length() != name.length() {
+			continue
+		}
+		if m.branch(strEq(n.name, name), fr) {
+			return n
+		}
+	}
+	return nil
+}
+
+func (fs *modelFS) create(name str, isDir bool) *fsNode {
+	fs.seq++
+	n := &fsNode{name: cleanPath(name), isDir: isDir, seq: fs.seq}
+	fs.nodes = append(fs.nodes, n)
+	return n
+}
+
+func dirOf(name str) (str, str) {
+	// split at the last '/', concrete separators only (names never contain symbolic '/': harness assumes it)
+	bs := name.bytes()
+	for i := len(bs) - 1; i >= 0; i-- {
+		if bs[i].isConst() && bs[i].c == '/' {
+			if i == 0 {
+				return str{s: "/"}, name.slice(1, len(bs))
+			}
+			return name.slice(0, i), name.slice(i+1, len(bs))
+		}
+	}
+	return str{s: "."}, name
+}
+
+func (m *Machine) ioEOF() value {
+	p := m.prog.ImportedPackage("io")
+	if p == nil {
+		return errorValue(m, "EOF")
+	}
+	g := p.Var("EOF")
+	if g == nil {
+		return errorValue(m, "EOF")
+	}
+	return copyVal(m.globalObj(g).v)
+}
+
+func fsErr(m *Machine, op string, name str, msg string) value {
+	n, _ := name.concrete()
+	return errorValue(m, op+" "+n+": "+msg)
+}
+
+func handleOf(fr *frame, v value) *fsHandle {
+	p, ok := v.(pointer)
+	if !ok || p.isNil() {
+		fr.rtPanic("invalid memory address or nil pointer dereference (*os.File)")
+	}
+	h, ok := p.obj.v.(*fsHandle)
+	if !ok {
+		panic(unsupported("*os.File that was not opened through the model file system (os.Stdout etc.)"))
+	}
+	return h
+}
+
+const (
+	oWRONLY = 0x1
+	oRDWR   = 0x2
+	oAPPEND = 0x400
+	oCREATE = 0x40
+	oEXCL   = 0x80
+	oTRUNC  = 0x200
+)
+
+func (m *Machine) fsOpen(fr *frame, name str, flag int64) value {
+	fs := m.getFS()
+	node := fs.lookup(m, fr, name)
+	if node == nil {
+		if flag&oCREATE == 0 {
+			return tuple{pointer{}, fsErr(m, "open", name, "no such file or directory")}
+		}
+		// the parent directory must exist unless it is "."
+		node = fs.create(name, false)
+	} else if node.isDir && flag&(oWRONLY|oRDWR) != 0 {
+		return tuple{pointer{}, fsErr(m, "open", name, "is a directory")}
+	} else if flag&oCREATE != 0 && flag&oEXCL != 0 {
+		return tuple{pointer{}, fsErr(m, "open", name, "file exists")}
+	}
+	h := &fsHandle{node: node, name: name}
+	switch flag & 3 {
+	case 0:
+		h.readable = true
+	case oWRONLY:
+		h.writable = true
+	case oRDWR:
+		h.readable, h.writable = true, true
+	}
+	h.append_ = flag&oAPPEND != 0
+	if flag&oTRUNC != 0 && h.writable && !node.isDir {
+		node.content = nil
+	}
+	fs.handles = append(fs.handles, h)
+	obj := m.newObject(h, nil)
+	return tuple{pointer{obj: obj}, iface{}}
+}
+
+func (m *Machine) infoValue(n *fsNode) value {
+	_, base := dirOf(n.name)
+	return iface{t: fakeInfoType, v: &fsInfo{node: n, base: base}}
+}
+
+// invokeModel dispatches interface method calls on model objects.
+func invokeModel(recv value, name string) nativeFn {
+	switch r := recv.(type) {
+	case *fsInfo:
+		switch name {
+		case "IsDir":
+			return func(m *Machine, fr *frame, args []value) value { return mkBool(r.node.isDir) }
+		case "Size":
+			return func(m *Machine, fr *frame, args []value) value { return mkConst(64, uint64(len(r.node.content))) }
+		case "Name":
+			return func(m *Machine, fr *frame, args []value) value { return r.base }
+		case "Type", "Mode":
+			return func(m *Machine, fr *frame, args []value) value {
+				if r.node.isDir {
+					return mkConst(32, 1<<31)
+				}
+				return mkConst(32, 0)
+			}
+		case "Info":
+			return func(m *Machine, fr *frame, args []value) value {
+				return tuple{iface{t: fakeInfoType, v: r}, iface{}}
+			}
+		}
+	}
+	return nil
+}
+
+func byteSliceToTerms(s slice) []*Term {
+	out := make([]*Term, s.len)
+	if s.len > 0 {
+		arr := s.arr()
+		for i := 0; i < s.len; i++ {
+			out[i] = arr[s.off+i].(*Term)
+		}
+	}
+	return out
+}
+
+func init() {
+	stubs["os.Open"] = func(m *Machine, fr *frame, fn *ssa.Function, args []value) value {
+		return m.fsOpen(fr, args[0].(str), 0)
+	}
+	stubs["os.OpenFile"] = func(m *Machine, fr *frame, fn *ssa.Function, args []value) value {
+		return m.fsOpen(fr, args[0].(str), m.concInt(args[1], fr))
+	}
+	stubs["os.Create"] = func(m *Machine, fr *frame, fn *ssa.Function, args []value) value {
+		return m.fsOpen(fr, args[0].(str), oRDWR|oCREATE|oTRUNC)
+	}
+	stubs["os.Stat"] = func(m *Machine, fr *frame, fn *ssa.Function, args []value) value {
+		n := m.getFS().lookup(m, fr, args[0].(str))
+		if n == nil {
+			return tuple{iface{}, fsErr(m, "stat", args[0].(str), "no such file or directory")}
+		}
+		return tuple{m.infoValue(n), iface{}}
+	}
+	stubs["os.Lstat"] = stubs["os.Stat"]
+	stubs["os.ReadFile"] = func(m *Machine, fr *frame, fn *ssa.Function, args []value) value {
+		n := m.getFS().lookup(m, fr, args[0].(str))
+		if n == nil {
+			return tuple{slice{}, fsErr(m, "open", args[0].(str), "no such file or directory")}
+		}
+		if n.isDir {
+			return tuple{slice{}, fsErr(m, "read", args[0].(str), "is a directory")}
+		}
+		a := make(array, len(n.content))
+		for i, b := range n.content {
+			a[i] = b
+		}
+		obj := m.newObject(a, nil)
+		return tuple{slice{obj: obj, len: len(a), cap: len(a)}, iface{}}
+	}
+	stubs["os.WriteFile"] = func(m *Machine, fr *frame, fn *ssa.Function, args []value) value {
+		fs := m.getFS()
+		n := fs.lookup(m, fr, args[0].(str))
+		if n == nil {
+			n = fs.create(args[0].(str), false)
+		}
+		n.content = byteSliceToTerms(args[1].(slice))
+		return iface{}
+	}
+	stubs["os.ReadDir"] = func(m *Machine, fr *frame, fn *ssa.Function, args []value) value {
+		fs := m.getFS()
+		dirName := cleanPath(args[0].(str))
+		if c, ok := dirName.concrete(); !ok || (c != "." && c != "/") {
+			d := fs.lookup(m, fr, dirName)
+			if d == nil || !d.isDir {
+				return tuple{slice{}, fsErr(m, "open", dirName, "no such file or directory")}
+			}
+		}
+		type ent struct {
+			n    *fsNode
+			base str
+		}
+		var ents []ent
+		for _, n := range fs.nodes {
+			if n.deleted {
+				continue
+			}
+			parent, base := dirOf(n.name)
+			if base.length() == 0 {
+				continue
+			}
+			if parent.length() != dirName.length() {
+				continue
+			}
+			if m.branch(strEq(parent, dirName), fr) {
+				ents = append(ents, ent{n, base})
+			}
+		}
+		// os.ReadDir returns entries sorted by filename; with symbolic names keep creation order
+		allConc := true
+		for _, e := range ents {
+			if _, ok := e.base.concrete(); !ok {
+				allConc = false
+			}
+		}
+		if allConc {
+			sort.SliceStable(ents, func(i, j int) bool {
+				a, _ := ents[i].base.concrete()
+				b, _ := ents[j].base.concrete()
+				return a < b
+			})
+		}
+		a := make(array, len(ents))
+		for i, e := range ents {
+			a[i] = iface{t: fakeEntryType, v: &fsInfo{node: e.n, base: e.base}}
+		}
+		obj := m.newObject(a, nil)
+		return tuple{slice{obj: obj, len: len(a), cap: len(a)}, iface{}}
+	}
+	stubs["os.Rename"] = func(m *Machine, fr *frame, fn *ssa.Function, args []value) value {
+		fs := m.getFS()
+		n := fs.lookup(m, fr, args[0].(str))
+		if n == nil {
+			return fsErr(m, "rename", args[0].(str), "no such file or directory")
+		}
+		if old := fs.lookup(m, fr, args[1].(str)); old != nil && old != n {
+			old.deleted = true
+		}
+		n.name = cleanPath(args[1].(str))
+		return iface{}
+	}
+	stubs["os.Remove"] = func(m *Machine, fr *frame, fn *ssa.Function, args []value) value {
+		n := m.getFS().lookup(m, fr, args[0].(str))
+		if n == nil {
+			return fsErr(m, "remove", args[0].(str), "no such file or directory")
+		}
+		n.deleted = true
+		return iface{}
+	}
+	stubs["os.Getwd"] = func(m *Machine, fr *frame, fn *ssa.Function, args []value) value {
+		return tuple{str{s: "."}, iface{}}
+	}
+	stubs["(*os.File).Read"] = func(m *Machine, fr *frame, fn *ssa.Function, args []value) value {
+		h := handleOf(fr, args[0])
+		buf := args[1].(slice)
+		if h.abstract {
+			// sequential read of the abstract file = ReadAt at the (concrete) position, except that io.EOF is
+			// only returned when nothing could be read
+			if h.absPos == nil {
+				h.absPos = mkConst(64, 0)
+			}
+			off := h.absPos
+			rem := mkBin(opSub, h.absSize, off)
+			if m.branch(mkCmp(opSle, rem, mkConst(64, 0)), fr) {
+				return tuple{mkConst(64, 0), m.ioEOF()}
+			}
+			full := mkCmp(opSle, mkConst(64, uint64(buf.len)), rem)
+			n := mkIte(full, mkConst(64, uint64(buf.len)), rem)
+			if la, lazy := (*cellOf(buf.obj, buf.path)).(*lazyArr); lazy {
+				oldGet := la.get
+				bo := uint64(buf.off)
+				*cellOf(buf.obj, buf.path) = &lazyArr{n: la.n, get: func(idx *Term) *Term {
+					rel := mkBin(opSub, idx, mkConst(64, bo))
+					in := mkAnd(mkCmp(opSle, mkConst(64, 0), rel), mkCmp(opSlt, rel, n))
+					return mkIte(in, mkExtract(mkBin(opAdd, off, rel), 7, 0), oldGet(idx))
+				}}
+			} else {
+				// a freshly made buffer: turn it into a lazily defined one
+				bl := buf.len
+				*cellOf(buf.obj, buf.path) = &lazyArr{n: bl + buf.off, get: func(idx *Term) *Term {
+					rel := mkBin(opSub, idx, mkConst(64, uint64(buf.off)))
+					in := mkAnd(mkCmp(opSle, mkConst(64, 0), rel), mkCmp(opSlt, rel, n))
+					return mkIte(in, mkExtract(mkBin(opAdd, off, rel), 7, 0), mkConst(8, 0))
+				}}
+			}
+			h.absPos = mkBin(opAdd, h.absPos, n)
+			return tuple{n, iface{}}
+		}
+		if h.closed {
+			return tuple{mkConst(64, 0), errorValue(m, "read: file already closed")}
+		}
+		if !h.readable {
+			return tuple{mkConst(64, 0), errorValue(m, "read: bad file descriptor")}
+		}
+		if h.node.isDir {
+			return tuple{mkConst(64, 0), errorValue(m, "read: is a directory")}
+		}
+		if buf.len == 0 {
+			return tuple{mkConst(64, 0), iface{}}
+		}
+		rem := len(h.node.content) - h.pos
+		if rem <= 0 {
+			return tuple{mkConst(64, 0), m.ioEOF()}
+		}
+		n := buf.len
+		if rem < n {
+			n = rem
+		}
+		arr := buf.arr()
+		for i := 0; i < n; i++ {
+			m.storeElem(buf.obj, arr, buf.off+i, h.node.content[h.pos+i])
+		}
+		h.pos += n
+		return tuple{mkConst(64, uint64(n)), iface{}}
+	}
+	stubs["(*os.File).ReadAt"] = func(m *Machine, fr *frame, fn *ssa.Function, args []value) value {
+		h := handleOf(fr, args[0])
+		buf := args[1].(slice)
+		if h.abstract {
+			// abstract file of symbolic size F whose byte at offset i is byte(i): the buffer receives
+			// n = min(len(buf), F-off) bytes, the rest keeps its old contents; short read => io.EOF
+			off := args[2].(*Term)
+			h.readAts++
+			if m.branch(mkCmp(opSlt, off, mkConst(64, 0)), fr) {
+				return tuple{mkConst(64, 0), errorValue(m, "readat: negative offset")}
+			}
+			rem := mkBin(opSub, h.absSize, off)
+			full := mkCmp(opSle, mkConst(64, uint64(buf.len)), rem)
+			neg := mkCmp(opSlt, rem, mkConst(64, 0))
+			n := mkIte(full, mkConst(64, uint64(buf.len)), mkIte(neg, mkConst(64, 0), rem))
+			if la, lazy := (*cellOf(buf.obj, buf.path)).(*lazyArr); lazy {
+				oldGet := la.get
+				bo := uint64(buf.off)
+				*cellOf(buf.obj, buf.path) = &lazyArr{n: la.n, get: func(idx *Term) *Term {
+					rel := mkBin(opSub, idx, mkConst(64, bo)) // index relative to the slice passed to ReadAt
+					in := mkAnd(mkCmp(opSle, mkConst(64, 0), rel), mkCmp(opSlt, rel, n))
+					return mkIte(in, mkExtract(mkBin(opAdd, off, rel), 7, 0), oldGet(idx))
+				}}
+			} else if buf.len > 0 {
+				arr := buf.arr()
+				for i := 0; i < buf.len; i++ {
+					inRange := mkCmp(opSlt, mkConst(64, uint64(i)), n)
+					nb := mkExtract(mkBin(opAdd, off, mkConst(64, uint64(i))), 7, 0)
+					old := arr[buf.off+i].(*Term)
+					m.storeElem(buf.obj, arr, buf.off+i, mkIte(inRange, nb, old))
+				}
+			}
+			if m.branch(full, fr) {
+				return tuple{n, iface{}}
+			}
+			return tuple{n, m.ioEOF()}
+		}
+		off := m.concInt(args[2], fr)
+		if h.closed {
+			return tuple{mkConst(64, 0), errorValue(m, "read: file already closed")}
+		}
+		if !h.readable {
+			return tuple{mkConst(64, 0), errorValue(m, "read: bad file descriptor")}
+		}
+		if off < 0 {
+			return tuple{mkConst(64, 0), errorValue(m, "readat: negative offset")}
+		}
+		rem := len(h.node.content) - int(off)
+		if rem < 0 {
+			rem = 0
+		}
+		n := buf.len
+		if rem < n {
+			n = rem
+		}
+		if n > 0 {
+			arr := buf.arr()
+			for i := 0; i < n; i++ {
+				m.storeElem(buf.obj, arr, buf.off+i, h.node.content[int(off)+i])
+			}
+		}
+		if n < buf.len {
+			return tuple{mkConst(64, uint64(n)), m.ioEOF()}
+		}
+		return tuple{mkConst(64, uint64(n)), iface{}}
+	}
+	writeAt := func(m *Machine, h *fsHandle, data []*Term) {
+		if h.append_ {
+			h.pos = len(h.node.content)
+		}
+		for len(h.node.content) < h.pos {
+			h.node.content = append(h.node.content, mkConst(8, 0))
+		}
+		// copy-on-write so that earlier snapshots of the content are not disturbed
+		nc := make([]*Term, len(h.node.content))
+		copy(nc, h.node.content)
+		for i, b := range data {
+			if h.pos+i < len(nc) {
+				nc[h.pos+i] = b
+			} else {
+				nc = append(nc, b)
+			}
+		}
+		h.node.content = nc
+		h.pos += len(data)
+	}
+	stubs["(*os.File).Write"] = func(m *Machine, fr *frame, fn *ssa.Function, args []value) value {
+		h := handleOf(fr, args[0])
+		if h.closed {
+			return tuple{mkConst(64, 0), errorValue(m, "write: file already closed")}
+		}
+		if !h.writable {
+			return tuple{mkConst(64, 0), errorValue(m, "write: bad file descriptor")}
+		}
+		data := byteSliceToTerms(args[1].(slice))
+		writeAt(m, h, data)
+		return tuple{mkConst(64, uint64(len(data))), iface{}}
+	}
+	stubs["(*os.File).WriteString"] = func(m *Machine, fr *frame, fn *ssa.Function, args []value) value {
+		p, ok := args[0].(pointer)
+		if ok && !p.isNil() {
+			if _, isH := p.obj.v.(*fsHandle); !isH {
+				// os.Stdout / os.Stderr
+				m.stdout = append(m.stdout, args[1].(str))
+				return tuple{mkConst(64, uint64(args[1].(str).length())), iface{}}
+			}
+		}
+		h := handleOf(fr, args[0])
+		if h.closed {
+			return tuple{mkConst(64, 0), errorValue(m, "write: file already closed")}
+		}
+		if !h.writable {
+			return tuple{mkConst(64, 0), errorValue(m, "write: bad file descriptor")}
+		}
+		data := args[1].(str).bytes()
+		writeAt(m, h, data)
+		return tuple{mkConst(64, uint64(len(data))), iface{}}
+	}
+	stubs["(*os.File).Seek"] = func(m *Machine, fr *frame, fn *ssa.Function, args []value) value {
+		h := handleOf(fr, args[0])
+		if h.closed {
+			return tuple{mkConst(64, 0), errorValue(m, "seek: file already closed")}
+		}
+		off := m.concInt(args[1], fr)
+		whence := m.concInt(args[2], fr)
+		np := int64(0)
+		switch whence {
+		case 0:
+			np = off
+		case 1:
+			np = int64(h.pos) + off
+		case 2:
+			np = int64(len(h.node.content)) + off
+		}
+		if np < 0 {
+			return tuple{mkConst(64, 0), errorValue(m, "seek: invalid argument")}
+		}
+		h.pos = int(np)
+		return tuple{mkConst(64, uint64(np)), iface{}}
+	}
+	stubs["(*os.File).Truncate"] = func(m *Machine, fr *frame, fn *ssa.Function, args []value) value {
+		h := handleOf(fr, args[0])
+		if h.closed {
+			return errorValue(m, "truncate: file already closed")
+		}
+		if !h.writable {
+			return errorValue(m, "truncate: invalid argument (file not open for writing)")
+		}
+		size := int(m.concInt(args[1], fr))
+		nc := make([]*Term, size)
+		for i := range nc {
+			if i < len(h.node.content) {
+				nc[i] = h.node.content[i]
+			} else {
+				nc[i] = mkConst(8, 0)
+			}
+		}
+		h.node.content = nc
+		return iface{}
+	}
+	stubs["(*os.File).Close"] = func(m *Machine, fr *frame, fn *ssa.Function, args []value) value {
+		h := handleOf(fr, args[0])
+		if h.closed {
+			return errorValue(m, "close: file already closed")
+		}
+		h.closed = true
+		return iface{}
+	}
+	stubs["(*os.File).Stat"] = func(m *Machine, fr *frame, fn *ssa.Function, args []value) value {
+		h := handleOf(fr, args[0])
+		if h.closed {
+			return tuple{iface{}, errorValue(m, "stat: file already closed")}
+		}
+		return tuple{m.infoValue(h.node), iface{}}
+	}
+	stubs["(*os.File).Name"] = func(m *Machine, fr *frame, fn *ssa.Function, args []value) value {
+		return handleOf(fr, args[0]).name
+	}
+	stubs["(*os.File).Sync"] = func(m *Machine, fr *frame, fn *ssa.Function, args []value) value { return iface{} }
+
+	// harness side of the model file system
+	harnessAPI["vfsWrite"] = func(m *Machine, fr *frame, fn *ssa.Function, args []value) value {
+		fs := m.getFS()
+		n := fs.lookup(m, fr, args[0].(str))
+		if n == nil {
+			n = fs.create(args[0].(str), false)
+		}
+		n.content = args[1].(str).bytes()
+		return nil
+	}
+	harnessAPI["vfsMkdir"] = func(m *Machine, fr *frame, fn *ssa.Function, args []value) value {
+		fs := m.getFS()
+		if fs.lookup(m, fr, args[0].(str)) == nil {
+			fs.create(args[0].(str), true)
+		}
+		return nil
+	}
+	harnessAPI["vfsRead"] = func(m *Machine, fr *frame, fn *ssa.Function, args []value) value {
+		n := m.getFS().lookup(m, fr, args[0].(str))
+		if n == nil || n.isDir {
+			return tuple{str{}, termFalse}
+		}
+		return tuple{mkStr(n.content), termTrue}
+	}
+	harnessAPI["vfsExists"] = func(m *Machine, fr *frame, fn *ssa.Function, args []value) value {
+		return mkBool(m.getFS().lookup(m, fr, args[0].(str)) != nil)
+	}
+	harnessAPI["vfsCount"] = func(m *Machine, fr *frame, fn *ssa.Function, args []value) value {
+		c := 0
+		for _, n := range m.getFS().nodes {
+			if !n.deleted {
+				c++
+			}
+		}
+		return mkConst(64, uint64(c))
+	}
+	harnessAPI["vfsOpenHandles"] = func(m *Machine, fr *frame, fn *ssa.Function, args []value) value {
+		c := 0
+		for _, h := range m.getFS().handles {
+			if !h.closed {
+				c++
+			}
+		}
+		return mkConst(64, uint64(c))
+	}
+	harnessAPI["vfsAbstractFile"] = func(m *Machine, fr *frame, fn *ssa.Function, args []value) value {
+		h := &fsHandle{abstract: true, absSize: args[0].(*Term), readable: true, node: &fsNode{}}
+		m.getFS().handles = append(m.getFS().handles, h)
+		return pointer{obj: m.newObject(h, nil)}
+	}
+	// vLazyWindow(n, base, valid, junk): a []byte of length n whose element k is byte(base+k) for k < valid, junk otherwise
+	harnessAPI["vLazyWindow"] = func(m *Machine, fr *frame, fn *ssa.Function, args []value) value {
+		n := int(m.concInt(args[0], fr))
+		base, valid, junk := args[1].(*Term), args[2].(*Term), args[3].(*Term)
+		la := &lazyArr{n: n, get: func(idx *Term) *Term {
+			return mkIte(mkCmp(opSlt, idx, valid), mkExtract(mkBin(opAdd, base, idx), 7, 0), junk)
+		}}
+		obj := m.newObject(la, nil)
+		return slice{obj: obj, len: n, cap: n}
+	}
+	harnessAPI["vfsReadAtCalls"] = func(m *Machine, fr *frame, fn *ssa.Function, args []value) value {
+		return mkConst(64, uint64(handleOf(fr, args[0]).readAts))
+	}
+	harnessAPI["vfsInit"] = func(m *Machine, fr *frame, fn *ssa.Function, args []value) value {
+		m.fs = &modelFS{}
+		return nil
+	}
+	harnessAPI["vfsDone"] = func(m *Machine, fr *frame, fn *ssa.Function, args []value) value { return nil }
+}
+
+var _ = fmt.Sprint
